@@ -1110,6 +1110,7 @@ func evalVerifyOwner(p core.Params) (line, impl string) {
 
 func registerDeviceKinds(c *core.Ctx) {
 	c.Register(&core.Kind{Name: devKind, Eval: evalVerifyOwner})
+	registerTpmKinds(c)
 }
 
 // ---- the runner ----
@@ -1126,6 +1127,10 @@ func RunC01(c *core.Ctx) {
 	defer closeSrvEnvs()
 	defer func() { devPool = map[string]*devFixture{} }()
 	c.Trivial = func(o core.Obs) bool { return strings.HasPrefix(o.Impl, "err") }
+	if tpmOnly() {
+		runC01TPM(c)
+		return
+	}
 	c.Rep.Rule = "cases = runs of the library's TO2 client (fdo.TO2) for a device enrolled by the real DI service against the real owner service (SQLite backend, " +
 		"real HTTP handler), for key types x public-key encodings (quick: P-256/X509, P-384/COSE, RSA2048/X5CHAIN; thorough: all), voucher chains of 1 entry " +
 		"(as DI leaves it) and 3 entries (mfg->o2->o3->owner via ExtendVoucher), with and without a to1d blob obtained by real TO0+TO1; a man in the middle " +
@@ -1316,8 +1321,9 @@ func RunC01(c *core.Ctx) {
 		}
 		c.Note("%s enc %d: %d cases in %.1f s", k.spec.Name, k.enc, c.Rep.Evaluations-n0, time.Since(t0).Seconds())
 	}
+	// the same with a device whose HMAC is computed by a TPM, and TPM commands that fail (device_tpm.go)
+	runC01TPM(c)
 }
-
 
 // devOVHProofXA: the ProveOVHdr payload, for reading the key-exchange parameter only.
 type devOVHProofXA struct {
